@@ -1,4 +1,4 @@
-def Lanelet_find_lanelet_predecessors_in_range.for3 (succ pred : Nat → List Nat) (len : Nat → Rat) (selfId : Nat) (fuel : Nat) (max_length : Rat) (p : _) (le : _) :=
+@[simp] def Lanelet_find_lanelet_predecessors_in_range.for3 (succ pred : Nat → List Nat) (len : Nat → Rat) (selfId : Nat) (fuel : Nat) (max_length : Rat) (p : _) (le : _) :=
   fun (paths_final, paths_next, lengths_next) pred =>
     if (decide (pred ∈ p) || decide (pred = selfId) || decide (le ≥ max_length)) then
       let paths_final := paths_final ++ [p]
@@ -15,7 +15,7 @@ def Lanelet_find_lanelet_predecessors_in_range.for3 (succ pred : Nat → List Na
           (paths_next, lengths_next, paths_final))
       (paths_final, paths_next, lengths_next)
 
-def Lanelet_find_lanelet_predecessors_in_range.for2 (succ pred : Nat → List Nat) (len : Nat → Rat) (selfId : Nat) (fuel : Nat) (max_length : Rat)  :=
+@[simp] def Lanelet_find_lanelet_predecessors_in_range.for2 (succ pred : Nat → List Nat) (len : Nat → Rat) (selfId : Nat) (fuel : Nat) (max_length : Rat)  :=
   fun (paths_final, paths_next, lengths_next) (p, le) =>
     let predecessors := (CR.PyC20.nbrOpt pred (CR.pyGet? p (-1)))
     if (!(CR.PyC20.truthy predecessors)) then
@@ -25,7 +25,7 @@ def Lanelet_find_lanelet_predecessors_in_range.for2 (succ pred : Nat → List Na
       let (paths_final, paths_next, lengths_next) := (predecessors).foldl (Lanelet_find_lanelet_predecessors_in_range.for3 succ pred len selfId fuel max_length p le) (paths_final, paths_next, lengths_next)
       (paths_final, paths_next, lengths_next)
 
-def Lanelet_find_lanelet_predecessors_in_range.while1 (succ pred : Nat → List Nat) (len : Nat → Rat) (selfId : Nat) (fuel : Nat) (max_length : Rat)  :=
+@[simp] def Lanelet_find_lanelet_predecessors_in_range.while1 (succ pred : Nat → List Nat) (len : Nat → Rat) (selfId : Nat) (fuel : Nat) (max_length : Rat)  :=
   CR.PyC20.mkLoop (fun (paths_final, paths, lengths) => (CR.PyC20.truthy paths)) (fun (paths_final, paths, lengths) =>
     let paths_next := []
     let lengths_next := []
